@@ -1101,20 +1101,27 @@ func (jf *JSONFamily) installArrayInner(f *ssa.Function, jt *jsonType) {
 				c1 = e.cellLoad(st, commaA)
 			} else if cv, ok := phiOfType(env, isStringT); ok {
 				c1 = cv.s
-			} else {
-				return []NamedFormula{{Name: "invariant#shape", Props: []string{"C06"}, Formula: "false"}}
+			}
+			// no separator variable: the code decides by the index (`if i > 0 { write(",") }`);
+			// the invariant is then about the writer state alone
+			commaIs := func(lit string) string {
+				if c1 == "" {
+					return "true"
+				}
+				return eq(c1, lit)
 			}
 			st0, st1 := sx("jst", e.entry.trace, out), sx("jst", st.trace, out)
-			idx, ok := env.vars["rangeindex"]
+			dn, ok := env.vars["#done"]
 			if !ok {
 				return []NamedFormula{{Name: "invariant#shape", Props: []string{"C06"}, Formula: "false"}}
 			}
-			done := sx("+", idx.s, "1")
+			done := dn.s
 			G := and(eq(sx("if_tag", e1), "0"), not(eq(st0, "99")))
 			cv := e.val[f.Params[0]]
 			tr0, tr1 := e.entry.trace, st.trace
 			return []NamedFormula{
-				{Name: "invariant#comma-state", Props: []string{"C06"}, Formula: implies(G, or(and(eq(done, "0"), eq(c1, "str_empty"), eq(st1, "20")), and(sx(">", done, "0"), eq(c1, "lit_comma"), eq(st1, "22"))))},
+				{Name: "invariant#range", Props: []string{"C06"}, Formula: and(sx("<=", "0", done), sx("<=", done, sx("sl_len", cv)))},
+				{Name: "invariant#comma-state", Props: []string{"C06"}, Formula: implies(G, or(and(eq(done, "0"), commaIs("str_empty"), eq(st1, "20")), and(sx(">", done, "0"), commaIs("lit_comma"), eq(st1, "22"))))},
 				{Name: "invariant#bad-stays-bad", Props: []string{"C06"}, Formula: implies(eq(st0, "99"), eq(st1, "99"))},
 				{Name: "invariant#items", Props: []string{"C07"}, Formula: implies(G, and(eq(sx("jalen", tr1, out), sx("+", sx("jalen", tr0, out), done)), items(e, cv, e.entry, sx("jalen", tr0, out), sx("jaidx", tr0, out), sx("jaidx", tr1, out), done)))},
 			}
